@@ -54,7 +54,7 @@ class ParserConfig(Config):
     namechars: str | None = None
     nameguard: bool | None = None  # implied by namechars
     whitespace: str | UndefinedType | None = Undefined
-    parseinfo: bool = False
+    parseinfo: bool | None = None  # None: not given (a False here would override the directive)
     heart: Heart | None = None
     heart_bps: float = DEFAULT_HEART_BPS
 
